@@ -621,7 +621,7 @@ func (x *c15Run) ask(uid bool, charset string, k *c15Key) ([]uint32, bool) {
 		return nil, false
 	}
 	if !r.OK() {
-		e.FailSig("search-status", k.Kind, "%s over a view of %d messages answered %s %s", cmd.Text, len(x.view.Rows), r.Status, r.Text)
+		e.FailSig("search-status", strings.TrimPrefix(core.NormSig("", r.Status+" "+r.Text), ": "), "%s over a view of %d messages answered %s %s", cmd.Text, len(x.view.Rows), r.Status, r.Text)
 		return nil, false
 	}
 	for _, l := range r.Lines {
